@@ -410,7 +410,7 @@ var costMaps = []map[string]float64{
 func famEval() {
 	r := rand.New(rand.NewSource(*fSeed))
 	prop := *fFor
-	gc := GenCfg{Custom: true, Alias: true, MaxKids: 4, Lists: true, Strings: true, Consts: true}
+	gc := GenCfg{Custom: true, Alias: true, MaxKids: 4, Lists: true, Strings: true, OddStrings: true, Consts: true}
 	switch prop {
 	case "C01":
 		gc.Failing, gc.FailVar, gc.Wrong = true, true, true
